@@ -65,6 +65,17 @@ def plan_st(draw, tier):
                                       max_size=len(op[1])))
     m = draw(st.integers(1, 6))
     q = draw(gen.contexts_st(m, h.d, h.grid))
+    if scale and draw(st.booleans()):
+        # one feature measured in tiny units: per-arm spread far above (1e-4) or far below (1e-8) the documented
+        # 1e-6 "treat as constant" knob of the standardisation, never near it
+        col = draw(st.integers(0, h.d - 1))
+        f = draw(st.sampled_from([1e-4, 1e-8, 1e-4]))
+        for op in ops_:
+            if op[0] in ("fit", "partial_fit"):
+                for row in op[3]:
+                    row[col] = row[col] * f
+        for row in q:
+            row[col] = row[col] * f
     return {"config": cfg, "ops": ops_, "query": q}
 
 
